@@ -18,12 +18,13 @@ pub fn run(id: usize, rng: &mut Rng) -> String {
         bursts.push((c, gap));
     }
     let presettle = rng.chance(2, 3);
+    let trickle: usize = if rng.chance(1, 3) { 9 } else { 0 };
     let total: usize = bursts.iter().map(|b| b.0).sum();
     let short: Vec<bool> = (0..total).map(|_| rng.chance(1, 5)).collect();
     let cfg = Config { seed: rng.next(), p_timer: *rng.pick(&[0u64, 0, 20]), ..Config::default() };
     let b2 = bursts.clone();
     let s2 = short.clone();
-    let ((started, after_burst, idle, dropped, q1, q2, q3), rep) = sched::run(&cfg, move || {
+    let ((started, after_burst, idle, dropped, q1, q2, q3, trickle_live), rep) = sched::run(&cfg, move || {
         let started: Arc<StdMutex<Vec<Option<u64>>>> = Arc::new(StdMutex::new(vec![None; total]));
         let gate = Arc::new((stdx::sync::Mutex::new(false), stdx::sync::Condvar::new()));
         let pool = TaskPool::new();
@@ -70,23 +71,49 @@ pub fn run(id: usize, rng: &mut Rng) -> String {
             *open = true;
             gate.1.notify_all();
         }
+        // light traffic: one short task per second; surplus workers must still retire although
+        // the pool is never completely silent for five seconds
+        let mut trickle_live = 0usize;
+        if trickle > 0 {
+            sched::settle(500_000_000);
+            for j in 0..trickle {
+                stdx::thread::sleep(Duration::from_millis(1000));
+                let st = started.clone();
+                let mut ran = false;
+                let idx = total + j;
+                sched::log(&format!("dispatch {}", idx));
+                pool.spawn(Box::new(move || {
+                    if ran {
+                        return;
+                    }
+                    ran = true;
+                    let _ = &st;
+                    sched::log(&format!("start {}", idx));
+                    sched::log(&format!("end {}", idx));
+                }));
+            }
+            stdx::thread::sleep(Duration::from_millis(200));
+            trickle_live = live_workers();
+        }
         let q2 = sched::settle(60_000_000_000);
         let idle = live_workers();
         sched::log("droppool");
         drop(pool);
         let q3 = sched::settle(60_000_000_000);
         let dropped = live_workers();
-        (snapshot, after_burst, idle, dropped, q1, q2, q3)
+        (snapshot, after_burst, idle, dropped, q1, q2, q3, trickle_live)
     });
     let labels = map_labels(&rep);
     format!(
-        "pool id={} seed={} ptimer={} bursts={} presettle={} short={} | labels={} started={} live_burst={} live_idle={} live_dropped={} quiet={}{}{} aborted={} clock={}",
+        "pool id={} seed={} ptimer={} bursts={} presettle={} short={} trickle={} live_trickle={} | labels={} started={} live_burst={} live_idle={} live_dropped={} quiet={}{}{} aborted={} clock={}",
         id,
         cfg.seed,
         cfg.p_timer,
         bursts.iter().map(|(c, g)| format!("{}:{}", c, g)).collect::<Vec<_>>().join(","),
         if presettle { 1 } else { 0 },
         short.iter().map(|b| if *b { "1" } else { "0" }).collect::<Vec<_>>().join(""),
+        trickle,
+        trickle_live,
         labels,
         started.iter().map(|s| s.map(|t| t.to_string()).unwrap_or_else(|| "never".into())).collect::<Vec<_>>().join(","),
         after_burst,
